@@ -9,13 +9,14 @@ mod c04;
 mod c05;
 mod c06;
 mod c07;
+mod c08;
 
 use serde_json::{Value, json};
 use std::time::Instant;
 use util::*;
 
 fn props() -> Vec<PropDef> {
-    vec![c02::DEF, c03::DEF, c04::DEF, c05::DEF, c06::DEF, c07::DEF]
+    vec![c02::DEF, c03::DEF, c04::DEF, c05::DEF, c06::DEF, c07::DEF, c08::DEF]
 }
 
 fn arg(args: &[String], name: &str) -> Option<String> {
